@@ -80,20 +80,29 @@ def handle (op stream : String) (ins outs : List String) : List Out :=
       if stream == "D" then [{ field := "clip.some/none", cmp := .diff s!"model={if m.isSome then "some" else "none"} impl flag={flag}", fbit := none }]
       else [{ field := "clip.edge-of-range(skipped)", cmp := .same 0, fbit := none }]
   | "cir" =>
-    -- ins: w1..w4 (8) line (4); outs: n then (t s x y)*.  The solver is external: the implementation's own
-    -- parameters are fed back as the root list, and the generated loop must reproduce every hit (Float mirror).
+    -- ins: w1..w4 (8) line (4) #k raw[k] poly[4]; outs: n then (t s x y)*.  The cubic/quadratic solver is an external crate:
+    -- hook H3 hands over the polynomial it was given and the raw roots it returned inside this very call; with those as the
+    -- `solve_roots` parameter the generated function (coefficients, polish_root, snapping, positions) must reproduce every
+    -- hit bit for bit, and must have computed the same polynomial (otherwise the stand-in solver answers with a marker root).
     let w (i : Nat) : V2 Float := v2f (iv.getD (2*i) default) (iv.getD (2*i+1) default)
     let lf := lineF iv 8
+    let k := parseNat (ins.getD 12 "#0")
+    let raw := ((iv.drop 13).take k).map (·.f)
+    let poly := (iv.drop (13 + k)).take 4
     let hits := chunk 4 ov
-    let ts := hits.map (fun h => (h.getD 0 default).f)
-    let model := curve_intersects_ray (fun _ => ts) (w 0) (w 1) (w 2) (w 3) lf
+    let samePoly (q : T4 Float Float Float Float) : Bool :=
+      q.t0.toBits == (poly.getD 0 default).bits && q.t1.toBits == (poly.getD 1 default).bits &&
+      q.t2.toBits == (poly.getD 2 default).bits && q.t3.toBits == (poly.getD 3 default).bits
+    let polyOk := (curve_intersects_ray (fun q => if samePoly q then [] else [0.5]) (w 0) (w 1) (w 2) (w 3) lf).isEmpty
+    let model := curve_intersects_ray (fun _ => raw) (w 0) (w 1) (w 2) (w 3) lf
+    let polyOut : Out := { field := "cir.poly", cmp := if polyOk then .same 0 else .diff "the generated code hands a different polynomial to the solver than the implementation did", fbit := some polyOk }
     if model.length != hits.length then
-      [{ field := "cir.count", cmp := .diff s!"model reproduces {model.length} hits from the implementation's {hits.length} parameters", fbit := none }]
+      [polyOut, { field := "cir.count", cmp := .diff s!"model yields {model.length} hits from the solver's {k} roots, the implementation {hits.length}", fbit := none }]
     else
-      (model.zip hits).flatMap fun (m, h) =>
+      polyOut :: (model.zip hits).flatMap fun (m, h) =>
         let o (i : Nat) := h.getD i default
         let ok (a : Float) (i : Nat) : Cmp :=
-          if a.toBits == (o i).bits || (a - (o i).f).abs ≤ 1e-9 * (1 + a.abs) then .same 0 else .diff s!"model={a} impl={(o i).f}"
+          if a.toBits == (o i).bits || (a.isNaN && (o i).f.isNaN) then .same 0 else .diff s!"model={a} impl={(o i).f}"
         [{ field := "cir.t", cmp := ok m.t0 0, fbit := some (m.t0.toBits == (o 0).bits) },
          { field := "cir.s", cmp := ok m.t1 1, fbit := some (m.t1.toBits == (o 1).bits) },
          { field := "cir.x", cmp := ok m.t2.x 2, fbit := some (m.t2.x.toBits == (o 2).bits) },
